@@ -158,6 +158,17 @@ def run(tier, replay):
                     continue
                 add(rt, has_t, s["script"], x, "tlc", s["sends"])
 
+    # large bodies echoed to a client that is slow to start reading (the response exceeds the socket buffers):
+    # "a body exactly as long as its Content-Length", whatever its size
+    def rq(m, tgt, conn, ver, bl):
+        return {"k": "req", "hl": 3, "dl": 3, "bl": bl, "wf": True, "m": m, "tgt": tgt, "conn": conn, "ver": ver}
+    for rt in ("threaded", "tokio"):
+        for conn, fo in (("close", False), ("ka", True)):
+            for rep in range(3 if thorough else 1):
+                jid[0] += 1
+                jobs[rt].append({"id": jid[0], "timeout": False, "script": [rq("POST", "echo", conn, "1.1", 9)], "plan": "whole", "sends": [],
+                                 "expected_n": 1, "final_open": fo, "slow_read_ms": 500})
+
     # ---- 3. run against the real servers, validate the logs with TLC ----
     total_conns = 0
     nontrivial = set()
